@@ -152,12 +152,6 @@ func enumerateSigs(o planOpts) []*sigT {
 		seen[s.key()] = true
 		out = append(out, s)
 	}
-	ps, rs := lists(o.maxP), lists(o.maxR)
-	for _, p := range ps {
-		for _, r := range rs {
-			add(p, r, "small")
-		}
-	}
 	for _, c := range cliffLists(o.maxArity) {
 		f := "cliff:" + c.fam
 		add(c.l, nil, f)                // parameters only
@@ -168,6 +162,13 @@ func enumerateSigs(o planOpts) []*sigT {
 	}
 	for _, t := range typedDefs {
 		add(t.p, t.r, "typed")
+	}
+	// the exhaustive small signatures come last: a run that is cut short by its budget has covered the cliffs
+	ps, rs := lists(o.maxP), lists(o.maxR)
+	for _, p := range ps {
+		for _, r := range rs {
+			add(p, r, "small")
+		}
 	}
 	return out
 }
